@@ -13,12 +13,14 @@ import (
 	"context"
 	stdjson "encoding/json"
 	"fmt"
+	"os"
 	"sort"
 	"strings"
 	"sync"
 
 	"mosn.io/api"
 	v2 "mosn.io/mosn/pkg/config/v2"
+	"mosn.io/mosn/pkg/log"
 	xproto "mosn.io/mosn/pkg/protocol/xprotocol"
 	"mosn.io/mosn/pkg/protocol/xprotocol/bolt"
 	"mosn.io/mosn/pkg/protocol/xprotocol/boltv2"
@@ -128,6 +130,7 @@ type hpObs struct {
 	Gauges      map[string]int64 // gauge deltas (end - start)
 	FilterLog   []string
 	Recovered   []string // panics recovered by the proxy's own handlers (from the proxy log)
+	Stuck       []string // internal-state signature of every stream the proxy still tracks at quiescence
 }
 
 // ---------------------------------------------------------------------------
@@ -145,6 +148,10 @@ func (hpPool) Init()                      {}
 func hpInit() {
 	hpOnce.Do(func() {
 		vfake.Install()
+		if os.Getenv("VERIF_DEBUG") == "3" {
+			log.DefaultLogger.SetLogLevel(log.DEBUG)
+			log.Proxy.SetLogLevel(log.DEBUG)
+		}
 		initGlobalStats()
 		pool = hpPool{}
 		xproto.RegisterXProtocolAction(xstream.NewConnPool, xstream.NewStreamFactory, func(codec api.XProtocolCodec) {})
@@ -236,9 +243,9 @@ func hpBoltRequest(id uint32, r hpRequest) []byte {
 	if r.Oneway {
 		req.CmdType = bolt.CmdTypeRequestOneway
 	}
-	if r.TimeoutMs > 0 {
-		req.Timeout = int32(r.TimeoutMs)
-	}
+	// bolt.NewRpcRequest presets Timeout=-1; the harness always states the codec-supplied
+	// timeout explicitly (0 = absent, so that the route timeout applies)
+	req.Timeout = int32(r.TimeoutMs)
 	return hpEncode(req)
 }
 
@@ -402,13 +409,12 @@ func hpBody(sc *hpScenario, obs *hpObs) {
 			host.SetHealthFlag(api.FAILED_ACTIVE_HC)
 			return true
 		})
-	} else if !sc.NoHosts {
-		// health flags are shared per address across executions: clear them
-		snap := h.cm.GetClusterSnapshot(context.Background(), hpCluster)
-		snap.HostSet().Range(func(host types.Host) bool {
-			host.ClearHealthFlag(api.FAILED_ACTIVE_HC)
-			return true
-		})
+	} else {
+		// health flag words are process-global per address (cluster.healthStore): start every
+		// execution with all conditions cleared, as a fresh process would
+		for i := 0; i < 8; i++ {
+			*cluster.GetHealthFlagPointer(hpHostAddr(i)) = 0
+		}
 	}
 	rcfg := hpRouterConfig(sc)
 	if sc.NoRoute {
@@ -472,6 +478,9 @@ func hpBody(sc *hpScenario, obs *hpObs) {
 		h.parseUp(u)
 	}
 	obs.Active = p.activeStreams.Len()
+	for e := p.activeStreams.Front(); e != nil; e = e.Next() {
+		obs.Stuck = append(obs.Stuck, hpStuckSignature(e.Value.(*downStream)))
+	}
 	obs.ResCur = hpResources(h)
 	g1 := hpGauges(h)
 	obs.Gauges = map[string]int64{}
@@ -603,3 +612,75 @@ func hpInstallFilters(sc *hpScenario, h *hpRun) {
 
 var hpFilterHook func(sc *hpScenario, h *hpRun)
 var hpRouterHook func(sc *hpScenario, rc *v2.RouterConfiguration)
+
+// hpDeterminism replays the default schedule of a scenario twice (and one
+// deviating schedule) and compares the full scheduling traces: a harness whose
+// executions are not a function of the choice sequence must not be trusted.
+// Returns "" or a description of the first difference.
+func hpDeterminism(sc hpScenario) string {
+	run := func(prefix []int) ([]string, string) {
+		obs := &hpObs{}
+		var tr []string
+		var sum string
+		vrt.Explore(vrt.Options{Replay: true, Prefix: prefix, Delay: true, MaxSteps: 200000, Trace: true}, func() {
+			*obs = hpObs{}
+			hpBody(&sc, obs)
+		}, func(r *vrt.Result) {
+			tr = r.Trace
+			sum = fmt.Sprintf("%v|%v|%v|%d", obs.DownFrames, obs.Attempts, obs.Log, obs.Active)
+		})
+		return tr, sum
+	}
+	cmp := func(prefix []int) string {
+		t1, s1 := run(prefix)
+		t2, s2 := run(prefix)
+		// the single-threaded set-up before the first choice point (lines "#0 …") legitimately
+		// differs between the first execution of a process and later ones (caches, metric
+		// registration, router add vs update): compare from the first choice point on
+		strip := func(t []string) []string {
+			for i, l := range t {
+				if !strings.HasPrefix(l, "#0 ") {
+					return t[i:]
+				}
+			}
+			return nil
+		}
+		t1, t2 = strip(t1), strip(t2)
+		for i := 0; i < len(t1) && i < len(t2); i++ {
+			if t1[i] != t2[i] {
+				lo := i - 3
+				if lo < 0 {
+					lo = 0
+				}
+				return fmt.Sprintf("schedule %v: traces differ at step %d:\n  run1: %v\n  run2: %v", prefix, i, t1[lo:i+1], t2[lo:i+1])
+			}
+		}
+		if len(t1) != len(t2) {
+			return fmt.Sprintf("schedule %v: trace lengths differ: %d vs %d", prefix, len(t1), len(t2))
+		}
+		if s1 != s2 {
+			return fmt.Sprintf("schedule %v: observations differ:\n  %s\n  %s", prefix, s1, s2)
+		}
+		return ""
+	}
+	if d := cmp(nil); d != "" {
+		return d
+	}
+	// one deviating schedule: deviate at the 40th choice point
+	pre := make([]int, 40)
+	pre[39] = 1
+	return cmp(pre)
+}
+
+// hpStuckSignature describes the internal state of a stream that never
+// completed; it names the root cause class in finding keys (scenario-independent).
+func hpStuckSignature(ds *downStream) string {
+	b := func(v uint32) int { return int(v) }
+	setupRetry := false
+	if ds.upstreamRequest != nil {
+		setupRetry = ds.upstreamRequest.setupRetry
+	}
+	return fmt.Sprintf("phase=%s upstreamResponseReceived=%d upstreamReset=%d downstreamReset=%d cleaned=%d directResponse=%v responseStarted=%v upstreamProcessDone=%v setupRetry=%v perTryTimerSet=%v globalTimerSet=%v",
+		types.PhaseName[ds.phase], b(ds.upstreamResponseReceived), b(ds.upstreamReset), b(ds.downstreamReset), b(ds.downstreamCleaned),
+		ds.directResponse, ds.downstreamResponseStarted, ds.upstreamProcessDone.Load(), setupRetry, ds.perRetryTimer != nil, ds.responseTimer != nil)
+}
